@@ -183,6 +183,13 @@ Definition ov_of_chains (local remote : list N) (n : N) : option bool :=
               end
   end.
 
+(* synthetic overlap: the chains agree exactly up to height l, except that the peer's answers are inverted at the
+   heights in `flips` (an inconsistent peer) and the probe fails at the heights in `fails` (peer error). Used to tie
+   the search to the code for heads far beyond what a real chain in the harness can have. *)
+Definition ov_synth (l : N) (flips fails : list N) (n : N) : option bool :=
+  if existsb (N.eqb n) fails then None
+  else Some (xorb (n <=? l) (existsb (N.eqb n) flips)).
+
 Definition ancestor_of_chains (local remote : list N) (head : N) (fuel : nat) : outcome :=
   find_common_ancestor (ov_of_chains local remote) head fuel.
 
